@@ -87,6 +87,7 @@ fn build(ch: &mut Chooser, fmt: &str) -> (Vec<u8>, Meta, Vec<(String, String)>) 
             let mut expn = vec![];
             if !m.names.is_empty() {
                 let mut xti = vec![];
+                if ch.flag("xlsb.formula-less-name-first") { b.names.push((MACRO_NAME.to_string(), vec![])); }
                 for (i, (n, t)) in m.names.iter().enumerate() {
                     let ix = ws_index(t) as i32;
                     xti.push((ix, ix));
@@ -108,9 +109,11 @@ fn build(ch: &mut Chooser, fmt: &str) -> (Vec<u8>, Meta, Vec<(String, String)>) 
                 sh.name_wide = ch.flag("xls.sheet-name-16bit");
                 b.sheets.push(sh);
             }
+            if b.sheets.len() >= 2 && ch.flag("xls.substreams-stored-in-reverse-of-boundsheet-order") { b.substream_order = (0..b.sheets.len()).rev().collect(); }
             let mut expn = vec![];
             if !m.names.is_empty() {
                 let mut xti = vec![];
+                if ch.flag("xls.formula-less-name-first") { b.names.push((MACRO_NAME.to_string(), vec![])); }
                 for (i, (n, t)) in m.names.iter().enumerate() {
                     let ix = ws_index(t) as i16;
                     xti.push((ix, ix));
@@ -142,6 +145,8 @@ fn build(ch: &mut Chooser, fmt: &str) -> (Vec<u8>, Meta, Vec<(String, String)>) 
 
 /// same names in the same order; for the token-encoded formats the decoded reference may or may not quote the sheet name
 fn names_agree(fmt: &str, got: &[(String, String)], exp: &[(String, String)]) -> bool {
+    // a name record without a formula has no reference to decode: listing it or not is the reader's choice
+    let got: Vec<&(String, String)> = got.iter().filter(|g| g.0 != MACRO_NAME).collect();
     if got.len() != exp.len() { return false; }
     got.iter().zip(exp.iter()).all(|(g, e)| {
         if g.0 != e.0 { return false; }
@@ -152,6 +157,9 @@ fn names_agree(fmt: &str, got: &[(String, String)], exp: &[(String, String)]) ->
         false
     })
 }
+
+/// name of the formula-less name record (a macro / add-in placeholder) some variations put before the real names
+const MACRO_NAME: &str = "Macro1";
 
 type Obs = (Vec<Sheet>, Vec<String>, Vec<(String, String)>, Vec<(String, Data)>);
 
@@ -205,7 +213,7 @@ fn run_case(rep: &Report, ch: &mut Chooser, fmt: &str, local: &mut Vec<(u64, boo
 
 pub fn check(rep: &Report) {
     let t = crate::thorough(&rep.tier);
-    rep.rule("workbooks = 0..3 sheets x 8 names (XML specials, quotes, non-ASCII, astral, 31 characters) x visibility x kind (xlsx/xlsb: work/chart/dialog/macro; xls dt 0/1/2/6; ods display) x 0..2 reference-valued defined names x 1900/1904 (+ a date cell on every worksheet) x prefix / name packing; per format all choice vectors with <= d deviations from (one visible worksheet 'Sheet1') and the full product over one-sheet workbooks; non-trivial = non-default; distinct by file bytes");
+    rep.rule("workbooks = 0..3 sheets x 8 names (XML specials, quotes, non-ASCII, astral, 31 characters) x visibility x kind (xlsx/xlsb: work/chart/dialog/macro; xls dt 0/1/2/6; ods display) x 0..2 reference-valued defined names x 1900/1904 (+ a date cell on every worksheet) x prefix / name packing / xls substreams stored in reverse of BoundSheet8 order / a formula-less name record before the names (xls, xlsb); per format all choice vectors with <= d deviations from (one visible worksheet 'Sheet1') and the full product over one-sheet workbooks; non-trivial = non-default; distinct by file bytes");
     rep.assume("defined names are reference-valued (the one form all four readers decode); picture/VBA parts are not present");
     let stats = Mutex::new(Stats::default());
     let dev = if t { 4 } else { 3 };
